@@ -185,16 +185,9 @@ func c06Stored(c *c06ctx) {
 		// every array store in StoreMessage is dominated by the ok edge of the party's ValidateMessage
 		n := 0
 		bad := ""
-		for _, b := range sm.Blocks {
-			for _, in := range b.Instrs {
-				st, ok := in.(*ssa.Store)
-				if !ok {
-					continue
-				}
-				ia, ok := st.Addr.(*ssa.IndexAddr)
-				if !ok || !contains(pr.Arrays, core.LastFields(ia.X, 1)) {
-					continue
-				}
+		for _, as := range messageArrayStores(pr, sm) {
+			{
+				ia, b := as.IA, as.Store.Block()
 				n++
 				okV := false
 				for _, f := range core.FactsAt(b) {
@@ -309,6 +302,8 @@ func c06Identity(c *c06ctx) {
 			call := cs.(ssa.Instruction)
 			if ok, wit := nonZeroModQ(scalar, call, core.TFactsAt(call.Block(), 3), 0); ok {
 				c.r.OK(rule, key, c.pos(cs), "guarded: "+wit)
+			} else if ok, wit := c.scalarAtCallers(scalar, call, 0); ok {
+				c.r.OK(rule, key, c.pos(cs), wit)
 			} else {
 				c.r.Bad(rule, key, c.pos(cs), "the scalar "+descr(scalar)+" (origin "+tn.String()+") can be 0 modulo the group order: the product is the identity and the curve wrapper panics")
 			}
